@@ -17,6 +17,7 @@ type MutOpts struct {
 	Light     bool // avoid ranges spanning more than a few chunks
 	Huge      bool // allow ranges spanning thousands of chunks / ending at 2^32 from anywhere
 	OnlyOps   []string
+	MaxVal    uint64 // when non-zero, additions stay at or below this value (removals are not restricted)
 }
 
 var mutOpsAll = []string{"Add", "CheckedAdd", "AddInt", "AddMany", "Remove", "CheckedRemove", "AddRange", "RemoveRange", "Flip", "Clear", "RunOptimize", "Clone", "CloneCOWContainers", "SetCOW"}
@@ -158,9 +159,15 @@ func mutateStep(c *Ctx, bm *BM, o MutOpts) string {
 	}
 	sig := o.Sig + op
 	b, m := bm.B, bm.M
+	capv := func(x uint64) uint64 {
+		if o.MaxVal > 0 && x > o.MaxVal {
+			return x % (o.MaxVal + 1)
+		}
+		return x
+	}
 	switch op {
 	case "Add", "AddInt":
-		x := edgeVal32(r, m)
+		x := capv(edgeVal32(r, m))
 		c.Step("%s(%d)", op, x)
 		c.Guard(sig, func() {
 			if op == "Add" {
@@ -173,7 +180,7 @@ func mutateStep(c *Ctx, bm *BM, o MutOpts) string {
 		})
 		m.Add(x)
 	case "CheckedAdd":
-		x := edgeVal32(r, m)
+		x := capv(edgeVal32(r, m))
 		c.Step("CheckedAdd(%d)", x)
 		want := !m.Contains(x)
 		c.Guard(sig, func() {
@@ -201,6 +208,9 @@ func mutateStep(c *Ctx, bm *BM, o MutOpts) string {
 		c.Eval(1)
 	case "AddMany":
 		vals := genManyValues(r, m)
+		for i := range vals {
+			vals[i] = uint32(capv(uint64(vals[i])))
+		}
 		if len(vals) <= 64 {
 			c.Step("AddMany(%v)", vals)
 		} else {
@@ -212,6 +222,12 @@ func mutateStep(c *Ctx, bm *BM, o MutOpts) string {
 		}
 	case "AddRange":
 		s, e := genRange(r, m, o.Light, o.Huge)
+		if o.MaxVal > 0 && e > o.MaxVal+1 {
+			e = o.MaxVal + 1
+			if s >= e {
+				s = e - 1 - r.Range(0, minU(e-1, 70000))
+			}
+		}
 		empty := emptyRange(r, &s, &e)
 		c.Step("AddRange(%d,%d)", s, e)
 		c.Guard(sig, func() { b.AddRange(s, e) })
@@ -238,6 +254,12 @@ func mutateStep(c *Ctx, bm *BM, o MutOpts) string {
 			s, e = genRange(r, m, false, false)
 			if e-s > 200*65536 {
 				e = s + 200*65536
+			}
+		}
+		if o.MaxVal > 0 && e > o.MaxVal+1 {
+			e = o.MaxVal + 1
+			if s >= e {
+				s = e - 1 - r.Range(0, minU(e-1, 70000))
 			}
 		}
 		empty := emptyRange(r, &s, &e)
